@@ -24,6 +24,10 @@ pub enum Form {
   DynJsonAttr, // await import("x", { with: { type: "json" } });
   ImportType, // type X = import("x").Y;
   JsDoc,      // /** @type {import("x").T} */
+  TextAttr,   // import t from "x" with { type: "text" };
+  BytesAttr,  // import b from "x" with { type: "bytes" };
+  DynTextAttr, // await import("x", { with: { type: "text" } });
+  BogusAttr,  // import z from "x" with { type: "bogus" };
 }
 
 #[derive(Clone, Debug)]
@@ -98,6 +102,10 @@ pub fn render(src: &ModSrc, is_js: bool) -> String {
         "await import(\"{}\", {{ with: {{ type: \"json\" }} }});\n",
         t
       )),
+      Form::TextAttr => body.push_str(&format!("import t{} from \"{}\" with {{ type: \"text\" }};\n", i, t)),
+      Form::BytesAttr => body.push_str(&format!("import b{} from \"{}\" with {{ type: \"bytes\" }};\n", i, t)),
+      Form::DynTextAttr => body.push_str(&format!("await import(\"{}\", {{ with: {{ type: \"text\" }} }});\n", t)),
+      Form::BogusAttr => body.push_str(&format!("import z{} from \"{}\" with {{ type: \"bogus\" }};\n", i, t)),
       Form::ImportType => {
         if is_js {
           body.push_str(&format!("/** @type {{import(\"{}\").T}} */\nconst v{} = null;\n", t, i))
@@ -138,6 +146,7 @@ impl World {
 /// Log of loader calls (specifier, cache setting, presented checksum, in_dynamic_branch).
 #[derive(Clone, Debug)]
 pub struct LoadCall {
+  pub asset: bool,
   pub specifier: String,
   pub cache_setting: &'static str,
   pub checksum: Option<String>,
@@ -187,8 +196,26 @@ impl Loader for WorldLoader<'_> {
   fn max_redirects(&self) -> usize {
     self.max_redirects
   }
+  fn ensure_cached(&self, specifier: &ModuleSpecifier, options: LoadOptions) -> EnsureCachedFuture {
+    self.log.borrow_mut().push(LoadCall {
+      asset: true,
+      specifier: specifier.to_string(),
+      cache_setting: options.cache_setting.as_js_str(),
+      checksum: options.maybe_checksum.as_ref().map(|c| c.as_str().to_string()),
+      in_dynamic_branch: options.in_dynamic_branch,
+    });
+    // same mapping as the trait's default implementation
+    let r = self.answer(specifier).map(|v| {
+      v.map(|r| match r {
+        LoadResponse::Redirect { specifier } => CacheResponse::Redirect { specifier },
+        LoadResponse::External { .. } | LoadResponse::Module { .. } => CacheResponse::Cached,
+      })
+    });
+    async move { r }.boxed_local()
+  }
   fn load(&self, specifier: &ModuleSpecifier, options: LoadOptions) -> LoadFuture {
     self.log.borrow_mut().push(LoadCall {
+      asset: false,
       specifier: specifier.to_string(),
       cache_setting: options.cache_setting.as_js_str(),
       checksum: options.maybe_checksum.as_ref().map(|c| c.as_str().to_string()),
@@ -212,6 +239,8 @@ impl deno_graph::Executor for InlineExecutor {
 // ---------------- generator ----------------
 
 pub struct GenCfg {
+  /// also generate text/bytes/bogus attributes (a function of the target, under the proviso)
+  pub assets: bool,
   pub max_modules: usize,
   pub redirects: bool,
   pub faults: bool,
@@ -241,6 +270,28 @@ fn text_for(rng: &mut Rng, from: &str, to: &str) -> String {
   }
 }
 
+/// Attribute class of a target under the proviso, when asset attributes are
+/// generated too: 0 none, 1 json, 2 text, 3 bytes, 5 bogus.
+pub fn attr_class_target(to: &str, assets: bool) -> u8 {
+  if attr_json_target(to) {
+    return 1;
+  }
+  if !assets {
+    return 0;
+  }
+  let name = to.rsplit('/').next().unwrap_or("");
+  if !name.starts_with('m') {
+    return 0;
+  }
+  let h: u32 = to.bytes().fold(11u32, |a, b| a.wrapping_mul(37).wrapping_add(b as u32));
+  match h % 13 {
+    0 | 1 => 2,
+    2 => 3,
+    3 => 5,
+    _ => 0,
+  }
+}
+
 /// Under the same-attribute proviso: targets whose imports all carry `type: "json"`.
 /// A function of the target only (most .json files, and a few others).
 pub fn attr_json_target(to: &str) -> bool {
@@ -256,7 +307,7 @@ pub fn attr_json_target(to: &str) -> bool {
 fn pick_plain(rng: &mut Rng, all: &[String]) -> String {
   for _ in 0..20 {
     let y = rng.pick(all).clone();
-    if !attr_json_target(&y) {
+    if attr_class_target(&y, true) == 0 {
       return y;
     }
   }
@@ -307,8 +358,15 @@ pub fn gen_world(rng: &mut Rng, cfg: &GenCfg) -> (World, Vec<String>) {
         if text.starts_with("FILE://") {
           text = to.clone();
         }
+        let cls = attr_class_target(&to, cfg.assets);
         let form = if json_attr {
           if rng.chance(70) { Form::JsonAttr } else { Form::DynJsonAttr }
+        } else if cls == 2 {
+          if rng.chance(70) { Form::TextAttr } else { Form::DynTextAttr }
+        } else if cls == 3 {
+          Form::BytesAttr
+        } else if cls == 5 {
+          Form::BogusAttr
         } else {
           match rng.below(100) {
             0..=29 => Form::Static,
